@@ -6,7 +6,7 @@
     Instances: the printed tokens of a stream selector (label names may be keywords that are not function names: D29) and of a
     pipeline over the stage fragment of PipelineP are such lists; composing with the parser theorems gives
     text -> matchers (selector) and text -> ELog selector stages (whole log queries through parse_tokens). *)
-From LogQLV Require Import Base.Bytes Base.TimeFmt Base.FloatX Model.Tables Model.Syntax Model.Parser Model.Lexer Proofs.ParserP Proofs.PipelineP Proofs.QueryP Proofs.LexerP.
+From LogQLV Require Import Base.Bytes Base.TimeFmt Base.FloatX Model.Tables Model.Syntax Model.Parser Model.Lexer Proofs.ParserP Proofs.PipelineP Proofs.LogRangeP Proofs.QueryP Proofs.LexerP.
 From Coq Require Import Lia.
 
 (** facts about the keyword table of the tree under verification (decided by computation on Model/Tables.v, which is
@@ -14,6 +14,8 @@ From Coq Require Import Lia.
 Lemma kw_never_string : forallb (fun kv => negb (ttype_eqb (snd kv) TString)) keyword_table = true.
 Proof. vm_compute. reflexivity. Qed.
 Lemma kw_never_ident : forallb (fun kv => negb (ttype_eqb (snd kv) TIdent)) keyword_table = true.
+Proof. vm_compute. reflexivity. Qed.
+Lemma kw_never_duration : forallb (fun kv => negb (ttype_eqb (snd kv) TDuration)) keyword_table = true.
 Proof. vm_compute. reflexivity. Qed.
 Lemma kw_closebrace_not_label : forallb (fun kv => negb (ttype_eqb (snd kv) TCloseBrace) || negb (is_valid_label (fst kv))) keyword_table = true.
 Proof. vm_compute. reflexivity. Qed.
@@ -23,7 +25,7 @@ Definition is_fun_ltok (t : ltok) : bool := match t with LFun _ _ => true | _ =>
 Fixpoint funs_ok (l : list ltok) : Prop :=
   match l with
   | [] => True
-  | t :: r => (if is_fun_ltok t then match r with t2 :: _ => t2 = open_paren | [] => False end else True) /\ funs_ok r
+  | t :: r => (if is_fun_ltok t then match r with t2 :: _ => fun_next t2 | [] => False end else True) /\ funs_ok r
   end.
 Lemma fun_ok_funs l : funs_ok (map fst l) -> fun_ok l.
 Proof.
@@ -41,23 +43,35 @@ Lemma closed_one t : is_fun_ltok t = false -> closed [t].
 Proof. intros Ht b Hb. cbn [app funs_ok]. rewrite Ht. split; [exact I|exact Hb]. Qed.
 Lemma closed_cons t a : is_fun_ltok t = false -> closed a -> closed (t :: a).
 Proof. intros Ht Ha. change (t :: a) with ([t] ++ a). apply closed_app; [apply closed_one; exact Ht|exact Ha]. Qed.
-Lemma closed_fun ty w a : closed a -> closed (LFun ty w :: open_paren :: a).
-Proof. intros Ha b Hb. cbn [app funs_ok is_fun_ltok]. split; [reflexivity|]. split; [exact I|]. apply Ha, Hb. Qed.
+Lemma closed_fun ty w t2 a : fun_next t2 -> is_fun_ltok t2 = false -> closed a -> closed (LFun ty w :: t2 :: a).
+Proof. intros Hn H2 Ha b Hb. cbn [app funs_ok is_fun_ltok]. split; [exact Hn|]. rewrite H2. split; [exact I|]. apply Ha, Hb. Qed.
+Lemma closed_fun_app ty w a c : match a with t2 :: _ => fun_next t2 /\ is_fun_ltok t2 = false | [] => False end ->
+  closed a -> closed c -> closed (LFun ty w :: a ++ c).
+Proof.
+  intros Ha Hca Hcc b Hb. destruct a as [|t2 gr]; [contradiction|]. destruct Ha as [Hn H2].
+  assert (H : funs_ok ((t2 :: gr) ++ c ++ b)) by (apply Hca, Hcc, Hb).
+  cbn [app funs_ok is_fun_ltok]. split; [exact Hn|]. rewrite <- app_assoc. exact H.
+Qed.
 Lemma closed_funs_ok a : closed a -> funs_ok a.
 Proof. intro H. rewrite <- (app_nil_r a). apply H. exact I. Qed.
 
 Section LexParse.
   Variable anch : bytes -> bool.
   Variable re_names : bytes -> option (list bytes).
+  Variable dur : bytes -> option Z.      (* lexerql.ParseDuration on the text of a duration token (library oracle) *)
   Notation str_tok := (str_tok anch re_names).
 
-  (** what the driver makes of a lexed token: a string token carries the results of compiling its text *)
+  (** what the driver makes of a lexed token: a string token carries the results of compiling its text, a duration token the
+      nanoseconds read from it *)
   Definition tok_of (p : ttype * bytes) : token :=
-    if ttype_eqb (fst p) TString then str_tok (snd p) else plain (fst p) (snd p).
+    if ttype_eqb (fst p) TString then str_tok (snd p)
+    else if ttype_eqb (fst p) TDuration then match dur (snd p) with Some ns => dur_tok (snd p) ns | None => plain TDuration (snd p) end
+    else plain (fst p) (snd p).
 
   (** how a parser token is written *)
   Definition ltok_of (t : token) : ltok :=
     if ttype_eqb (ty t) TString then LStr (text t)
+    else if ttype_eqb (ty t) TDuration then (let '(ds, u) := span is_digit_b (text t) in LDur ds u)
     else if ttype_eqb (ty t) TIdent then LId (text t)
     else if is_valid_label (text t) then (if is_function (ty t) then LFun (ty t) (text t) else LWord (ty t) (text t))
     else LPunct (ty t) (text t).
@@ -65,15 +79,25 @@ Section LexParse.
   (** ... and when it can be: its writing is in the lexer fragment and it carries nothing but what the driver would attach *)
   Definition lexable (t : token) : Prop := wf_ltok (ltok_of t) /\ tok_of (ty t, text t) = t.
 
+  Lemma span_app (f : byte -> bool) s : forall a b, span f s = (a, b) -> a ++ b = s.
+  Proof.
+    induction s as [|c t IH]; intros a b H; cbn in H; [injection H as <- <-; reflexivity|].
+    destruct (f c); [|injection H as <- <-; reflexivity].
+    destruct (span f t) as [a' r'] eqn:E. injection H as <- <-. cbn. f_equal. apply IH. reflexivity.
+  Qed.
+
   Lemma tok_of_ltok t : lexable t -> tok_of (lres (ltok_of t)) = t.
   Proof.
     intros [_ H]. unfold ltok_of. unfold tok_of in H. cbn [fst snd] in H.
     destruct (ttype_eqb (ty t) TString) eqn:ES.
     - cbn [lres]. unfold tok_of. cbn [fst snd]. change (ttype_eqb TString TString) with true. exact H.
-    - destruct (ttype_eqb (ty t) TIdent) eqn:EI.
-      + cbn [lres]. unfold tok_of. cbn [fst snd]. change (ttype_eqb TIdent TString) with false. cbv iota.
-        apply ttype_eqb_ident in EI. rewrite <- EI. exact H.
-      + destruct (is_valid_label (text t)); [destruct (is_function (ty t))|]; cbn [lres]; unfold tok_of; cbn [fst snd]; rewrite ES; exact H.
+    - destruct (ttype_eqb (ty t) TDuration) eqn:ED.
+      + destruct (span is_digit_b (text t)) as [ds u] eqn:E. cbn [lres]. rewrite (span_app _ _ _ _ E).
+        unfold tok_of. cbn [fst snd]. change (ttype_eqb TDuration TString) with false. change (ttype_eqb TDuration TDuration) with true. exact H.
+      + destruct (ttype_eqb (ty t) TIdent) eqn:EI.
+        * cbn [lres]. unfold tok_of. cbn [fst snd]. change (ttype_eqb TIdent TString) with false. change (ttype_eqb TIdent TDuration) with false. cbv iota.
+          apply ttype_eqb_ident in EI. rewrite <- EI. exact H.
+        * destruct (is_valid_label (text t)); [destruct (is_function (ty t))|]; cbn [lres]; unfold tok_of; cbn [fst snd]; rewrite ES, ED; exact H.
   Qed.
 
   Lemma wf_items l toks : map fst l = toks -> Forall wf_ltok toks -> Forall (fun x => all_space (snd x)) l -> Forall wf_item l.
@@ -132,9 +156,17 @@ Section LexParse.
     rewrite Hv in H. cbn in H. rewrite orb_false_r in H. destruct (ttype_eqb t TCloseBrace); [discriminate|reflexivity].
   Qed.
 
+  Lemma kw_cls_not_duration l : ttype_eqb (kw_cls l) TDuration = false.
+  Proof.
+    unfold kw_cls. destruct (lookup_kw l keyword_table) as [t|] eqn:E; [|reflexivity].
+    apply lookup_in in E. pose proof kw_never_duration as H. rewrite forallb_forall in H. specialize (H _ E). cbn in H.
+    destruct (ttype_eqb t TDuration); [discriminate|reflexivity].
+  Qed.
+
   Lemma label_tok l : text_label l -> lexable (plain (kw_cls l) l) /\ is_fun_ltok (ltok_of (plain (kw_cls l) l)) = false.
   Proof.
-    intros [Hv Hk]. pose proof (kw_cls_not_string l) as HS. unfold lexable, ltok_of, tok_of. cbn [ty text fst snd plain]. rewrite HS.
+    intros [Hv Hk]. pose proof (kw_cls_not_string l) as HS. pose proof (kw_cls_not_duration l) as HD.
+    unfold lexable, ltok_of, tok_of. cbn [ty text fst snd plain]. rewrite HS, HD.
     unfold kw_cls in *. destruct (lookup_kw l keyword_table) as [t|] eqn:E.
     - assert (HI : ttype_eqb t TIdent = false).
       { pose proof (lookup_in _ _ _ E) as Hin. pose proof kw_never_ident as H. rewrite forallb_forall in H. specialize (H _ Hin). cbn in H.
@@ -272,7 +304,7 @@ Section LexParse.
     - destruct (lineop_lex o) as [O1 O2]. destruct ip.
       + split; [fl; [exact O1|punct_lex|punct_lex|apply lexable_str; exact Ht|punct_lex]|].
         cbn [map]. apply closed_cons; [exact O2|]. change (ltok_of (punct TIP)) with (LFun TIP (spelling TIP)).
-        change (ltok_of (punct TOpenParen)) with open_paren. apply closed_fun. apply closed_cons; [reflexivity|]. apply closed_one. reflexivity.
+        change (ltok_of (punct TOpenParen)) with open_paren. apply closed_fun; [reflexivity|reflexivity|]. apply closed_cons; [reflexivity|]. apply closed_one. reflexivity.
       + split; [fl; [exact O1|apply lexable_str; exact Ht]|]. cbn [map]. apply closed_cons; [exact O2|]. apply closed_one. reflexivity.
     - apply kw_names_toks; [punct_lex|reflexivity|exact Ht].
     - apply kw_names_toks; [punct_lex|reflexivity|exact Ht].
@@ -314,5 +346,105 @@ Section LexParse.
     { rewrite map_app. apply closed_funs_ok. apply closed_app; assumption. }
     destruct (lex_tokens_lemma _ l El Hs HL HF) as [toks [H1 H2]]. exists toks. split; [exact H1|]. rewrite H2.
     destruct (text_matchers_wf sel Hm) as [W1 W2]. apply log_query_parse_lemma; assumption.
+  Qed.
+  (** * range aggregations and grouped vector aggregations: from text to tree *)
+  (** a duration as it can be written in the lexer fragment (digits and one unit, no leading zero, at most nine digits), with the
+      nanoseconds the library reads from it *)
+  Definition text_dur (txt : bytes) (ns : Z) : Prop :=
+    dur txt = Some ns /\ (let '(ds, u) := span is_digit_b txt in wf_ltok (LDur ds u)).
+
+  Lemma dur_tok_lex txt ns : text_dur txt ns -> lexable (dur_tok txt ns) /\ is_fun_ltok (ltok_of (dur_tok txt ns)) = false.
+  Proof.
+    intros [Hd Hw]. unfold lexable, ltok_of, tok_of. cbn [ty text dur_tok fst snd].
+    change (ttype_eqb TDuration TString) with false. change (ttype_eqb TDuration TDuration) with true. cbv iota.
+    destruct (span is_digit_b txt) as [ds u]. rewrite Hd. split; [split; [exact Hw|reflexivity]|reflexivity].
+  Qed.
+
+  Definition text_offset (off : option (bytes * Z)) : Prop := match off with Some (ot, on) => text_dur ot on | None => True end.
+
+  Lemma range_toks rtxt rns off : text_dur rtxt rns -> text_offset off ->
+    Forall lexable (print_range rtxt rns off) /\ closed (map ltok_of (print_range rtxt rns off)).
+  Proof.
+    intros Hr Ho. destruct (dur_tok_lex _ _ Hr) as [R1 R2]. unfold print_range. destruct off as [[ot on]|]; cbn [text_offset] in Ho.
+    - destruct (dur_tok_lex _ _ Ho) as [O1 O2]. split.
+      + fl; [punct_lex|exact R1|punct_lex|punct_lex|exact O1].
+      + cbn [map]. apply closed_cons; [reflexivity|]. apply closed_cons; [exact R2|]. apply closed_cons; [reflexivity|]. apply closed_cons; [reflexivity|]. apply closed_one. exact O2.
+    - split.
+      + fl; [punct_lex|exact R1|punct_lex].
+      + cbn [map]. apply closed_cons; [reflexivity|]. apply closed_cons; [exact R2|]. apply closed_one. reflexivity.
+  Qed.
+
+  Lemma logrange_toks sel sts rtxt rns off r : Forall text_matcher sel -> Forall text_stage sts -> chain_ok anch re_names sts r ->
+    text_dur rtxt rns -> text_offset off ->
+    Forall lexable (print_logrange anch re_names kw_cls sel sts rtxt rns off) /\ closed (map ltok_of (print_logrange anch re_names kw_cls sel sts rtxt rns off)).
+  Proof.
+    intros Hm Ht Hc Hr Ho. destruct (selector_toks sel Hm) as [A1 A2]. destruct (stages_toks sts (chain_simple _ _ Hc) Ht) as [B1 B2].
+    destruct (range_toks rtxt rns off Hr Ho) as [C1 C2]. unfold print_logrange. split.
+    - apply Forall_app. split; [exact A1|]. apply Forall_app. split; assumption.
+    - rewrite !map_app. apply closed_app; [exact A2|]. apply closed_app; assumption.
+  Qed.
+
+  Lemma rangeop_lex o : lexable (punct (rangeop_tok o)) /\ exists w, ltok_of (punct (rangeop_tok o)) = LFun (rangeop_tok o) w.
+  Proof. destruct o; (split; [punct_lex|eexists; reflexivity]). Qed.
+
+  Lemma range_agg_toks o sel sts rtxt rns off r : Forall text_matcher sel -> Forall text_stage sts -> chain_ok anch re_names sts r ->
+    text_dur rtxt rns -> text_offset off ->
+    Forall lexable (print_range_agg anch re_names kw_cls o sel sts rtxt rns off) /\ closed (map ltok_of (print_range_agg anch re_names kw_cls o sel sts rtxt rns off)).
+  Proof.
+    intros Hm Ht Hc Hr Ho. destruct (logrange_toks sel sts rtxt rns off r Hm Ht Hc Hr Ho) as [A1 A2].
+    destruct (rangeop_lex o) as [O1 [w O2]]. unfold print_range_agg. split.
+    - constructor; [exact O1|]. constructor; [punct_lex|]. apply Forall_app. split; [exact A1|]. fl. punct_lex.
+    - cbn [map]. rewrite O2. change (ltok_of (punct TOpenParen)) with open_paren. apply closed_fun; [reflexivity|reflexivity|].
+      rewrite map_app. apply closed_app; [exact A2|]. apply closed_one. reflexivity.
+  Qed.
+
+  Theorem range_agg_text_lemma (o : rangeop) (sel : list matcher) (sts : list stage) (rtxt : bytes) (rns : Z) (off : option (bytes * Z)) (l : list (ltok * bytes)) :
+    map fst l = map ltok_of (print_range_agg anch re_names kw_cls o sel sts rtxt rns off) ->
+    Forall (fun x => all_space (snd x)) l ->
+    range_validate o None None false = true ->
+    Forall text_matcher sel -> Forall text_stage sts -> chain_ok anch re_names sts (print_range rtxt rns off ++ [punct TCloseParen]) ->
+    text_dur rtxt rns -> text_offset off ->
+    exists toks, lex (layout l) = LexOk toks /\
+      parse_tokens (map tok_of toks) =
+        Parsed (ERange o {| r_sel := sel; r_range := rns; r_pipe := sts; r_unwrap := None; r_offset := option_map snd off |} None None).
+  Proof.
+    intros El Hs Hv Hm Ht Hc Hr Ho. destruct (range_agg_toks o sel sts rtxt rns off _ Hm Ht Hc Hr Ho) as [A1 A2].
+    destruct (lex_tokens_lemma _ l El Hs A1 (closed_funs_ok _ A2)) as [toks [H1 H2]]. exists toks. split; [exact H1|]. rewrite H2.
+    destruct (text_matchers_wf sel Hm) as [W1 W2]. apply range_agg_parse_lemma; assumption.
+  Qed.
+
+  Lemma vecop_lex v : lexable (punct (vecop_tok v)) /\ exists w, ltok_of (punct (vecop_tok v)) = LFun (vecop_tok v) w.
+  Proof. destruct v; (split; [punct_lex|eexists; reflexivity]). Qed.
+
+  Lemma grouping_toks g : text_names (g_labels g) ->
+    Forall lexable (print_grouping g) /\ closed (map ltok_of (print_grouping g)) /\
+    match map ltok_of (print_grouping g) with t2 :: _ => fun_next t2 /\ is_fun_ltok t2 = false | [] => False end.
+  Proof.
+    intro Hn. destruct (names_toks _ Hn) as [N1 N2]. unfold print_grouping, print_labels. split; [|split].
+    - constructor; [destruct (g_without g); punct_lex|]. constructor; [punct_lex|]. apply Forall_app. split; [exact N1|]. fl. punct_lex.
+    - cbn [map]. apply closed_cons; [destruct (g_without g); reflexivity|]. apply closed_cons; [reflexivity|]. rewrite map_app. apply closed_app; [exact N2|]. apply closed_one. reflexivity.
+    - cbn [map]. destruct (g_without g); split; reflexivity.
+  Qed.
+
+  Theorem vec_agg_text_lemma (v : vectorop) (g : grouping) (o : rangeop) (sel : list matcher) (sts : list stage) (rtxt : bytes) (rns : Z)
+      (off : option (bytes * Z)) (l : list (ltok * bytes)) :
+    map fst l = map ltok_of (print_vec_agg anch re_names kw_cls v g o sel sts rtxt rns off) ->
+    Forall (fun x => all_space (snd x)) l ->
+    vector_validate v None (Some g) = true -> range_validate o None None false = true -> text_names (g_labels g) ->
+    Forall text_matcher sel -> Forall text_stage sts -> chain_ok anch re_names sts (print_range rtxt rns off ++ [punct TCloseParen; punct TCloseParen]) ->
+    text_dur rtxt rns -> text_offset off ->
+    exists toks, lex (layout l) = LexOk toks /\
+      parse_tokens (map tok_of toks) = Parsed (EVecAgg v (range_expr o sel sts rns off) None (Some g)).
+  Proof.
+    intros El Hs Hvv Hv Hg Hm Ht Hc Hr Ho.
+    destruct (range_agg_toks o sel sts rtxt rns off _ Hm Ht Hc Hr Ho) as [A1 A2].
+    destruct (grouping_toks g Hg) as [G1 [G2 G3]]. destruct (vecop_lex v) as [V1 [w V2]].
+    assert (HL : Forall lexable (print_vec_agg anch re_names kw_cls v g o sel sts rtxt rns off)).
+    { unfold print_vec_agg. constructor; [exact V1|]. apply Forall_app. split; [exact G1|]. constructor; [punct_lex|]. apply Forall_app. split; [exact A1|]. fl. punct_lex. }
+    assert (HF : closed (map ltok_of (print_vec_agg anch re_names kw_cls v g o sel sts rtxt rns off))).
+    { unfold print_vec_agg. cbn [map]. rewrite V2. rewrite map_app. apply closed_fun_app; [exact G3|exact G2|].
+      cbn [map]. apply closed_cons; [reflexivity|]. rewrite map_app. apply closed_app; [exact A2|]. apply closed_one. reflexivity. }
+    destruct (lex_tokens_lemma _ l El Hs HL (closed_funs_ok _ HF)) as [toks [H1 H2]]. exists toks. split; [exact H1|]. rewrite H2.
+    destruct (text_matchers_wf sel Hm) as [W1 W2]. apply vec_agg_parse_lemma; assumption.
   Qed.
 End LexParse.
